@@ -569,19 +569,120 @@ Proof.
     constructor; [assumption|]. apply IH. assumption.
 Qed.
 
-Lemma helper_run_valid : forall ls hm,
+(* --- the helper's reader: one valid HOST line is one result of readline --- *)
+
+Lemma host_line_body n i :
+  host_line n i = (HOST_PREFIX ++ n ++ COMMA :: i) ++ DialogueLib.nl :: [].
+Proof. unfold host_line. rewrite <- !app_assoc. reflexivity. Qed.
+
+Lemma host_body_nosep n i : valid_name n = true -> valid_ip i = true ->
+  DialogueLib.nosep DialogueLib.nl (HOST_PREFIX ++ n ++ COMMA :: i) = true.
+Proof.
+  intros Hn Hi. destruct (valid_name_inv n Hn) as [_ Hn'].
+  pose proof (valid_ip_chars i Hi) as Hi'.
+  unfold DialogueLib.nosep. rewrite forallb_app. apply andb_true_intro. split; [reflexivity|].
+  rewrite forallb_app. apply andb_true_intro. split.
+  - eapply forallb_impl; [|exact Hn']. intros x Hx. apply name_not_nl in Hx.
+    apply negb_true_iff. apply Ascii.eqb_neq. exact Hx.
+  - cbn [forallb]. apply andb_true_intro. split; [reflexivity|].
+    eapply forallb_impl; [|exact Hi']. intros x Hx. apply ipch_not_nl in Hx.
+    apply negb_true_iff. apply Ascii.eqb_neq. exact Hx.
+Qed.
+
+Lemma line_fits_body lim n i : line_fits lim (host_line n i) ->
+  DialogueLib.fits lim (HOST_PREFIX ++ n ++ COMMA :: i) = true.
+Proof.
+  destruct lim as [k|]; [|reflexivity]. unfold line_fits, DialogueLib.fits.
+  rewrite host_line_body, lenN_app. intros H. apply N.leb_le.
+  change (lenN [DialogueLib.nl]) with 1 in H. exact H.
+Qed.
+
+Lemma chunks_host_line lim n i rest : valid_name n = true -> valid_ip i = true ->
+  line_fits lim (host_line n i) ->
+  DialogueLib.chunks lim (host_line n i ++ rest) = host_line n i :: DialogueLib.chunks lim rest.
+Proof.
+  intros Hn Hi Hf. rewrite host_line_body, <- app_assoc. cbn [app].
+  apply DialogueLib.chunks_line; [apply host_body_nosep; assumption|apply line_fits_body; exact Hf].
+Qed.
+
+(* every valid HOST line that fits is read back exactly as it was written *)
+Lemma helper_stdin_lines lim ls : Forall valid_host_line ls -> Forall (line_fits lim) ls ->
+  helper_stdin lim ls = ls.
+Proof.
+  unfold helper_stdin. induction ls as [|l ls IH]; intros Hv Hl.
+  - apply DialogueLib.chunks_nil.
+  - inversion Hv as [|? ? (n & i & Hn & Hi & ->) Hv']; subst.
+    inversion Hl as [|? ? Hl1 Hl']; subst.
+    cbn [concat]. rewrite chunks_host_line by assumption. rewrite IH by assumption. reflexivity.
+Qed.
+
+(* the whole-line reader: nothing to fit *)
+Lemma line_fits_whole lim : lim = None -> forall ls : list bytes, Forall (line_fits lim) ls.
+Proof. intros -> ls. apply Forall_forall. intros l _. exact I. Qed.
+
+Lemma line_fits_some n ls : Forall (fun l => lenN l <= n) ls -> Forall (line_fits (Some n)) ls.
+Proof. intros H. exact H. Qed.
+
+Lemma helper_reads_valid : forall ls hm,
   Forall valid_entry hm ->
   Forall valid_host_line ls ->
-  Forall (fun l => lenN l <= READLINE_LIMIT) ls ->
-  snd (helper_run hm ls) = None /\ Forall valid_entry (fst (helper_run hm ls)).
+  snd (helper_reads hm ls) = None /\ Forall valid_entry (fst (helper_reads hm ls)).
 Proof.
-  induction ls as [|l ls IH]; intros hm Hhm Hv Hl; [split; [reflexivity|exact Hhm]|].
+  induction ls as [|l ls IH]; intros hm Hhm Hv; [split; [reflexivity|exact Hhm]|].
   inversion Hv as [|? ? (n & i & Hn & Hi & ->) Hv']; subst.
-  inversion Hl as [|? ? Hl1 Hl']; subst.
-  cbn [helper_run]. apply N.ltb_ge in Hl1. rewrite Hl1.
-  rewrite helper_line_host by assumption.
-  apply IH; [|assumption|assumption].
+  cbn [helper_reads]. rewrite helper_line_host by assumption.
+  apply IH; [|assumption].
   apply hm_set_valid; [split; assumption|assumption].
+Qed.
+
+Lemma helper_run_valid lim : forall ls hm,
+  Forall valid_entry hm ->
+  Forall valid_host_line ls ->
+  Forall (line_fits lim) ls ->
+  snd (helper_run lim hm ls) = None /\ Forall valid_entry (fst (helper_run lim hm ls)).
+Proof.
+  intros ls hm Hhm Hv Hl. unfold helper_run. rewrite helper_stdin_lines by assumption.
+  apply helper_reads_valid; assumption.
+Qed.
+
+(* each record is delivered exactly once, in order: the helper's host map is the
+   fold of the records, and the helper is still waiting for more *)
+Definition valid_rec (r : bytes * bytes) : Prop :=
+  valid_name (fst r) = true /\ valid_ip (snd r) = true.
+
+Definition rec_line (r : bytes * bytes) : bytes := host_line (fst r) (snd r).
+
+Lemma rec_lines_valid recs : Forall valid_rec recs -> Forall valid_host_line (map rec_line recs).
+Proof.
+  intros H. apply Forall_map. eapply Forall_impl; [|exact H].
+  intros [n i] [Hn Hi]. exists n, i. auto.
+Qed.
+
+Lemma helper_reads_delivers : forall recs hm, Forall valid_rec recs ->
+  helper_reads hm (map rec_line recs) = (delivered hm recs, None).
+Proof.
+  induction recs as [|[n i] recs IH]; intros hm Hv; [reflexivity|].
+  inversion Hv as [|? ? [Hn Hi] Hv']; subst. cbn [fst snd] in *.
+  cbn [map helper_reads]. unfold rec_line at 1. cbn [fst snd].
+  rewrite helper_line_host by assumption. rewrite IH by assumption. reflexivity.
+Qed.
+
+Lemma helper_run_delivers lim recs hm : Forall valid_rec recs ->
+  Forall (line_fits lim) (map rec_line recs) ->
+  helper_run lim hm (map rec_line recs) = (delivered hm recs, None).
+Proof.
+  intros Hv Hl. unfold helper_run.
+  rewrite helper_stdin_lines by (try apply rec_lines_valid; assumption).
+  apply helper_reads_delivers. exact Hv.
+Qed.
+
+(* the client's HOST lines are the lines of valid records *)
+Lemma valid_lines_recs ls : Forall valid_host_line ls ->
+  exists recs, Forall valid_rec recs /\ ls = map rec_line recs.
+Proof.
+  induction 1 as [|l ls (n & i & Hn & Hi & ->) _ (recs & Hr & ->)].
+  - exists []. split; [constructor|reflexivity].
+  - exists ((n, i) :: recs). split; [constructor; [split; assumption|exact Hr]|reflexivity].
 Qed.
 
 Lemma hosts_lines_wf marker hm : Forall valid_entry hm -> Forall (wf_line marker) (hosts_lines marker hm).
@@ -590,17 +691,30 @@ Proof.
   intros [n i] [Hn Hi]. exists i, n. cbn [fst snd] in *. auto.
 Qed.
 
-(* the whole client + helper pipeline *)
-Lemma pipeline_line_form marker payloads :
+(* the whole client + helper pipeline, for every reader limit the lines fit *)
+Lemma pipeline_line_form lim marker payloads :
   let ls := fst (client_run onhostlist payloads) in
-  Forall (fun l => lenN l <= READLINE_LIMIT) ls ->
+  Forall (line_fits lim) ls ->
   snd (client_run onhostlist payloads) = COk /\
-  snd (helper_run [] ls) = None /\
-  Forall (wf_line marker) (hosts_lines marker (fst (helper_run [] ls))).
+  snd (helper_run lim [] ls) = None /\
+  Forall (wf_line marker) (hosts_lines marker (fst (helper_run lim [] ls))).
 Proof.
   intros ls Hl. split; [apply client_run_ok|].
-  destruct (helper_run_valid ls [] (Forall_nil _) (client_run_lines payloads) Hl) as [H1 H2].
+  destruct (helper_run_valid lim ls [] (Forall_nil _) (client_run_lines payloads) Hl) as [H1 H2].
   split; [exact H1|]. apply hosts_lines_wf. exact H2.
+Qed.
+
+(* ... and what is delivered: the client's lines are the lines of valid records and the
+   helper's host map is exactly their fold (each once, in order) *)
+Lemma pipeline_delivers lim payloads :
+  let ls := fst (client_run onhostlist payloads) in
+  Forall (line_fits lim) ls ->
+  exists recs, Forall valid_rec recs /\ ls = map rec_line recs /\
+    helper_run lim [] ls = (delivered [] recs, None).
+Proof.
+  intros ls Hl. destruct (valid_lines_recs ls (client_run_lines payloads)) as (recs & Hr & E).
+  exists recs. split; [exact Hr|]. split; [exact E|].
+  rewrite E in Hl |- *. apply helper_run_delivers; assumption.
 Qed.
 
 (* ------------------------------------------------------------------ *)
